@@ -168,8 +168,7 @@ def wdescr (l : Line) : IO Unit := do
   let pairs := xq.zip wq
   let W := wq.foldl (· + ·) 0
   let nz := (pairs.filter (fun (_, w) => w != 0)).map (·.1)
-  let lead0 := W > 0 ∧ wq.headD 1 == 0      -- N12d (a): the first weight is zero
-  let all0 := W == 0                         -- N12d (b): all weights zero
+  let all0 := W == 0     -- total weight zero → NaN (Mean, GeoMean, Percentile for 0 < p < 1; F26)
   let expectNaN (g : F64.Bits) : String := if F64.isNaN g then "ok" else s!"bad(go={showB g},want=nan)"
   let u := ulp (maxAbs xq)
   let tmean :=
@@ -177,15 +176,15 @@ def wdescr (l : Line) : IO Unit := do
     else judge gmean ((pairs.foldl (fun a (x, w) => a + w * x) 0) / W) (kMean * u)
   let tgeo :=
     if all0 then expectNaN ggeo
-    else if xq.any (· ≤ 0) then "ok"
+    else if nz.any (· ≤ 0) then "ok"     -- log of a non-positive value: outside the definition
     else if !F64.isFinite ggeo then s!"nonfinite({showB ggeo})"
     else
-      -- g^(4W) = Π x^(4w) (weights are multiples of 1/4)
-      let L : Rat := xq.foldl (fun a x => rmax a (rabs ((ilog2 x : Int) : Rat) + 1)) 1
+      -- g^(4W) = Π x^(4w) (weights are multiples of 1/4; zero-weight entries contribute x^0 = 1)
+      let L : Rat := nz.foldl (fun a x => rmax a (rabs ((ilog2 x : Int) : Rat) + 1)) 1
       let δ : Rat := (kGeo : Rat) * pow2 (-52) * L
       let g := toRat ggeo
       let e := (4 * W).num.toNat
-      let prod := pairs.foldl (fun a (x, w) => a * x ^ (4 * w).num.toNat) 1
+      let prod := pairs.foldl (fun a (x, w) => if w == 0 then a else a * x ^ (4 * w).num.toNat) 1
       if (g * (1 - δ)) ^ e ≤ prod ∧ prod ≤ (g * (1 + δ)) ^ e then "ok" else s!"bad(go={showB ggeo})"
   let tb :=
     if nz.isEmpty then (if F64.isNaN gmin ∧ F64.isNaN gmax then "ok" else s!"bad(min={showB gmin},max={showB gmax},want=nan)")
@@ -207,9 +206,7 @@ def wdescr (l : Line) : IO Unit := do
     match wpct p with
     | none => expectNaN g
     | some v => if F64.isFinite g ∧ toRat g == v then "ok" else s!"bad(p~{showRat p},go={showB g},want~{showRat v})")
-  let anyBad := [tmean, tgeo, tb, tp].any (· != "ok")
-  let kf := if anyBad ∧ (lead0 ∨ all0) ∧ tb == "ok" then " kf=N12d" else ""
-  IO.println s!"spec {id} mean={tmean} geo={tgeo} bounds={tb} pct={tp}{kf}"
+  IO.println s!"spec {id} mean={tmean} geo={tgeo} bounds={tb} pct={tp}"
 
 /-! ### t-tests -/
 
